@@ -1,6 +1,10 @@
 import CaresLemmas.ChanSockBase
 /-!
-# `process_answer`'s acceptance path (C05)
+# `process_answer`'s acceptance path (C05, and the TC / empty-datagram clauses of C20)
+
+`bodyProcessAnswer` is decomposed (definitionally) into the checks, `ares_cookie_validate`'s side effects, and the
+tail `paTail` that runs once a response has been accepted.  `acceptKey` is the pure decision; `Authentic` spells out
+what it has checked.
 -/
 namespace Cares.Chan
 open Cares.Proto
@@ -31,6 +35,60 @@ theorem cookieCheck_requeue_drop (s : St) (c : Conn) (q : Query) (r : Reply)
     (h : (cookieCheck s c q r).requeue = true) : (cookieCheck s c q r).verdict = .drop :=
   validateWith_requeue_drop _ _ _ _ _ _ _ h
 
+/-- the state after `ares_cookie_validate` has updated the server's cookie state and the query's cookie fields -/
+def paPre (s : St) (c : Conn) (key : Nat) (q : Query) (r : Reply) : St :=
+  (s.modServer c.srv fun v => { v with cookie := (cookieCheck s c q r).ck }).modQuery key fun q' =>
+    { q' with cookieTry := (cookieCheck s c q r).q.cookieTry, usingTcp := (cookieCheck s c q r).q.usingTcp }
+
+/-- `process_answer` once the response has passed every check: record it, unlink the query from its connection,
+    then EDNS downgrade / TC→TCP / server-failure requeue / cache + `end_query` -/
+def paTail (go : Call → St → St × Ret) (fd : Nat) (r : Reply) (c : Conn) (key : Nat) (q0 : Query) (s : St) : St × Ret :=
+  let q := (s.query? key).getD q0
+  let s := { s with accepted := s.accepted ++ [(fd, key, r)] }
+  let s := s.modConn (q.conn.getD fd) fun c => { c with queries := c.queries.erase key }
+  let s := s.modQuery key fun q => { q with inConnList := false }
+  let ednsIssue := r.rcode == 1 && q.edns &&
+    (!r.hasOpt || (q.reqCookie.isSome && r.hasOpt))
+  if ednsIssue then
+    let s := s.removeFromConn key
+    let s := s.modQuery key fun q => { q with edns := false, reqCookie := none, cookie := "-" }
+    ({ s with requeueArr := s.requeueArr ++ [(q.qid, some c.srv)] }, .ok)
+  else if r.tc && !c.tcp && !s.cfg.igntc then
+    let s := s.removeFromConn key
+    let s := s.modQuery key fun q => { q with usingTcp := true }
+    ({ s with requeueArr := s.requeueArr ++ [(q.qid, none)] }, .ok)
+  else if !s.cfg.nocheckresp && (r.rcode == 2 || r.rcode == 4 || r.rcode == 5) then
+    let st : Status := if r.rcode == 2 then .servfail else if r.rcode == 4 then .notimp else .refused
+    let s := s.incFailures c.srv q.usingTcp
+    let (s, _) := go (.requeue key st true (some r) true) s
+    (s, .ok)
+  else
+    let s := s.cacheInsert q r
+    let s := s.setGood c.srv q.usingTcp
+    let (s, _) := go (.endQuery (some c.srv) key .ok (some r)) s
+    (s, .ok)
+
+/-- `process_answer` decomposed (definitional) -/
+theorem bodyProcessAnswer_eq (go : Call → St → St × Ret) (fd : Nat) (r : Reply) (s : St) :
+    bodyProcessAnswer go fd r s =
+      match s.conn? fd with
+      | none => (s.mfault s!"uaf-conn({fd}) in process_answer", .other)
+      | some c =>
+        if r.empty then (s, .ok) else
+        if r.garbage then (s, .badresp) else
+        match s.byQid.find? (·.1 == r.id) with
+        | none => (s, .ok)
+        | some (_, key) =>
+          match s.query? key with
+          | none => (s.mfault s!"dangling-qid({r.id})", .other)
+          | some q =>
+            if q.conn != some fd then (s, .ok) else
+            if !sameQuestion s.cfg q r then (s, .ok) else
+            let (s', _) := if (cookieCheck s c q r).requeue then go (.requeue key .ok false none true) (paPre s c key q r)
+                           else (paPre s c key q r, Status.ok)
+            if (cookieCheck s c q r).verdict == .drop then (s', .ok) else paTail go fd r c key q s' := by
+  rfl
+
 /-- the decision of `process_answer`: the key of the query that response `r`, arriving on `fd`, answers -/
 def acceptKey (s : St) (fd : Nat) (r : Reply) : Option Nat :=
   match s.conn? fd with
@@ -44,6 +102,7 @@ def acceptKey (s : St) (fd : Nat) (r : Reply) : Option Nat :=
       match s.query? key with
       | none => none
       | some q =>
+        if q.conn != some fd then none else
         if !sameQuestion s.cfg q r then none else
         if (cookieCheck s c q r).verdict == .drop then none else some key
 
@@ -58,6 +117,8 @@ structure Authentic (s : St) (fd key : Nat) (r : Reply) : Prop where
   qid : (r.id, key) ∈ s.byQid ∧ (s.byQid.find? (·.1 == r.id)).map (·.2) = some key
   /-- … which is a live query -/
   live : ∃ q, s.query? key = some q
+  /-- … currently assigned to the connection the response arrived on -/
+  assigned : ∀ q, s.query? key = some q → q.conn = some fd
   qtype : ∀ q, s.query? key = some q → q.qtype = r.qtype
   qclass : ∀ q, s.query? key = some q → q.qclass = r.qclass
   /-- the name matches exactly when 0x20 is on and the query went over UDP -/
@@ -67,8 +128,11 @@ structure Authentic (s : St) (fd key : Nat) (r : Reply) : Prop where
   /-- the DNS-cookie checks accept it -/
   cookie : ∀ c q, s.conn? fd = some c → s.query? key = some q → (cookieCheck s c q r).verdict = .accept
 
-theorem acceptKey_authentic {s : St} {fd key : Nat} {r : Reply} (h : acceptKey s fd r = some key) :
-    Authentic s fd key r := by
+/-- unfolding of `acceptKey = some key` into the witnesses and the individual checks -/
+theorem acceptKey_some {s : St} {fd key : Nat} {r : Reply} (h : acceptKey s fd r = some key) :
+    ∃ c id q, s.conn? fd = some c ∧ r.empty = false ∧ r.garbage = false ∧
+      s.byQid.find? (·.1 == r.id) = some (id, key) ∧ s.query? key = some q ∧ q.conn = some fd ∧
+      sameQuestion s.cfg q r = true ∧ (cookieCheck s c q r).verdict = .accept := by
   unfold acceptKey at h
   split at h
   · cases h
@@ -87,36 +151,45 @@ theorem acceptKey_authentic {s : St} {fd key : Nat} {r : Reply} (h : acceptKey s
           · rename_i q hq
             split at h
             · cases h
-            · rename_i hsame
+            · rename_i hconn
               split at h
               · cases h
-              · rename_i hdrop
-                cases h
-                have hmem := List.find?_some hfind
-                have hin := List.mem_of_find?_eq_some hfind
-                simp only [beq_iff_eq] at hmem
-                subst hmem
-                have hs : sameQuestion s.cfg q r = true := by
-                  cases h' : sameQuestion s.cfg q r with
-                  | true => rfl
-                  | false => simp [h'] at hsame
-                simp only [sameQuestion, Bool.and_eq_true, beq_iff_eq] at hs
-                obtain ⟨⟨hqt, hqc⟩, hname⟩ := hs
-                refine ⟨by simpa using hempty, by simpa using hgarb, ⟨c, hc⟩, ⟨hin, by rw [hfind]; rfl⟩, ⟨q, hq⟩,
-                  ?_, ?_, ?_, ?_, ?_⟩
-                · intro q' hq'; rw [hq] at hq'; cases hq'; exact hqt
-                · intro q' hq'; rw [hq] at hq'; cases hq'; exact hqc
-                · intro q' hq' h0 hu; rw [hq] at hq'; cases hq'
-                  simpa [h0, hu] using hname
-                · intro q' hq'; rw [hq] at hq'; cases hq'
-                  split at hname
-                  · simp only [beq_iff_eq] at hname; rw [hname]
-                  · simpa using hname
-                · intro c' q' hc' hq'
-                  rw [hc] at hc'; rw [hq] at hq'; cases hc'; cases hq'
-                  cases hv : (cookieCheck s c q r).verdict with
-                  | accept => rfl
-                  | drop => rw [hv] at hdrop; simp at hdrop
+              · rename_i hsame
+                split at h
+                · cases h
+                · rename_i hdrop
+                  cases h
+                  refine ⟨c, id, q, hc, by simpa using hempty, by simpa using hgarb, hfind, hq, by simpa using hconn,
+                    ?_, ?_⟩
+                  · cases h' : sameQuestion s.cfg q r with
+                    | true => rfl
+                    | false => simp [h'] at hsame
+                  · cases hv : (cookieCheck s c q r).verdict with
+                    | accept => rfl
+                    | drop => rw [hv] at hdrop; simp at hdrop
+
+theorem acceptKey_authentic {s : St} {fd key : Nat} {r : Reply} (h : acceptKey s fd r = some key) :
+    Authentic s fd key r := by
+  obtain ⟨c, id, q, hc, hempty, hgarb, hfind, hq, hconn, hs, hv⟩ := acceptKey_some h
+  have hmem := List.find?_some hfind
+  have hin := List.mem_of_find?_eq_some hfind
+  simp only [beq_iff_eq] at hmem
+  subst hmem
+  simp only [sameQuestion, Bool.and_eq_true, beq_iff_eq] at hs
+  obtain ⟨⟨hqt, hqc⟩, hname⟩ := hs
+  refine ⟨hempty, hgarb, ⟨c, hc⟩, ⟨hin, by rw [hfind]; rfl⟩, ⟨q, hq⟩, ?_, ?_, ?_, ?_, ?_, ?_⟩
+  · intro q' hq'; rw [hq] at hq'; cases hq'; exact hconn
+  · intro q' hq'; rw [hq] at hq'; cases hq'; exact hqt
+  · intro q' hq'; rw [hq] at hq'; cases hq'; exact hqc
+  · intro q' hq' h0 hu; rw [hq] at hq'; cases hq'
+    simpa [h0, hu] using hname
+  · intro q' hq'; rw [hq] at hq'; cases hq'
+    split at hname
+    · simp only [beq_iff_eq] at hname; rw [hname]
+    · simpa using hname
+  · intro c' q' hc' hq'
+    rw [hc] at hc'; rw [hq] at hq'; cases hc'; cases hq'
+    exact hv
 
 /-- conversely: a response that satisfies all the checks is accepted (the checks are exactly these) -/
 theorem acceptKey_of_authentic {s : St} {fd key : Nat} {r : Reply} (h : Authentic s fd key r) :
@@ -142,8 +215,69 @@ theorem acceptKey_of_authentic {s : St} {fd key : Nat} {r : Reply} (h : Authenti
         simp only [Bool.and_eq_true, Bool.not_eq_true'] at hc0
         simpa using h.nameExact q hq hc0.1 hc0.2
       · simpa using h.nameCi q hq
-    simp only [hs, Bool.not_true, Bool.false_eq_true, ↓reduceIte, h.cookie c q hc hq]
+    have hcn : (q.conn != some fd) = false := by simp [h.assigned q hq]
+    simp only [hcn, hs, Bool.not_true, Bool.false_eq_true, ↓reduceIte, h.cookie c q hc hq]
     rfl
+
+/-- **accepted**: `process_answer` is its tail, run in the state `ares_cookie_validate` leaves -/
+theorem bodyProcessAnswer_accept (go : Call → St → St × Ret) {s : St} {fd key : Nat} {r : Reply}
+    (h : acceptKey s fd r = some key) :
+    ∃ c q, s.conn? fd = some c ∧ s.query? key = some q ∧ q.conn = some fd ∧
+      bodyProcessAnswer go fd r s = paTail go fd r c key q (paPre s c key q r) := by
+  obtain ⟨c, id, q, hc, hempty, hgarb, hfind, hq, hconn, hs, hv⟩ := acceptKey_some h
+  refine ⟨c, q, hc, hq, hconn, ?_⟩
+  have hrq : (cookieCheck s c q r).requeue = false := by
+    cases h' : (cookieCheck s c q r).requeue with
+    | false => rfl
+    | true => rw [cookieCheck_requeue_drop s c q r h'] at hv; cases hv
+  rw [bodyProcessAnswer_eq]
+  simp only [hc, hempty, hgarb, hfind, hq, hconn, hs, hrq, hv, bne_self_eq_false, Bool.false_eq_true, ↓reduceIte,
+    Bool.not_true]
+  rfl
+
+/-- **not accepted**: apart from faults, nothing happens except what `ares_cookie_validate` does (server cookie state,
+    the query's cookie counters, a BADCOOKIE re-send) -/
+theorem bodyProcessAnswer_reject (go : Call → St → St × Ret) {s : St} {fd : Nat} {r : Reply}
+    (h : acceptKey s fd r = none) :
+    (bodyProcessAnswer go fd r s).1 = s ∨ (∃ e, (bodyProcessAnswer go fd r s).1 = s.mfault e) ∨
+      ∃ c key q, s.conn? fd = some c ∧ s.query? key = some q ∧ (cookieCheck s c q r).verdict = .drop ∧
+        (bodyProcessAnswer go fd r s).1 =
+          if (cookieCheck s c q r).requeue then (go (.requeue key .ok false none true) (paPre s c key q r)).1
+          else paPre s c key q r := by
+  rw [bodyProcessAnswer_eq]
+  unfold acceptKey at h
+  split
+  · exact .inr (.inl ⟨_, rfl⟩)
+  · rename_i c hc
+    simp only [hc] at h
+    split
+    · exact .inl rfl
+    · split
+      · exact .inl rfl
+      · rename_i hempty hgarb
+        simp only [hempty, hgarb, Bool.false_eq_true, ↓reduceIte] at h
+        split
+        · exact .inl rfl
+        · rename_i id key hfind
+          simp only [hfind] at h
+          split
+          · exact .inr (.inl ⟨_, rfl⟩)
+          · rename_i q hq
+            simp only [hq] at h
+            split
+            · exact .inl rfl
+            · split
+              · exact .inl rfl
+              · rename_i hconn hsame
+                simp only [hconn, hsame, Bool.false_eq_true, ↓reduceIte] at h
+                have hd : ((cookieCheck s c q r).verdict == Cookie.Verdict.drop) = true := by
+                  cases hv : ((cookieCheck s c q r).verdict == Cookie.Verdict.drop) with
+                  | true => rfl
+                  | false => simp [hv] at h
+                refine .inr (.inr ⟨c, key, q, hc, hq, by simpa using hd, ?_⟩)
+                simp only [hd, ↓reduceIte]
+                split <;> rfl
+
 
 section
 variable (go : Call → St → St × Ret)
@@ -157,48 +291,36 @@ macro_rules
         | (simp only [chan_frame, $h:ident])
         | (csplit <;> pair_subst)))
 
+theorem paPre_accepted (s : St) (c : Conn) (key : Nat) (q : Query) (r : Reply) :
+    (paPre s c key q r).accepted = s.accepted := rfl
+theorem paPre_cfg (s : St) (c : Conn) (key : Nat) (q : Query) (r : Reply) :
+    (paPre s c key q r).cfg = s.cfg := rfl
+theorem paPre_cache (s : St) (c : Conn) (key : Nat) (q : Query) (r : Reply) :
+    (paPre s c key q r).cache = s.cache := rfl
+
+theorem paTail_accepted (hgo : ∀ c s, (go c s).1.accepted = s.accepted) (fd : Nat) (r : Reply) (c : Conn)
+    (key : Nat) (q : Query) (s : St) :
+    (paTail go fd r c key q s).1.accepted = s.accepted ++ [(fd, key, r)] := by
+  unfold paTail
+  acc_simp hgo
+
 /-- **`process_answer` appends to `accepted` exactly the response it was given, exactly when `acceptKey` says so**
     (stated for recursive calls that leave `accepted` alone, i.e. for what `process_answer` itself does) -/
 theorem bodyProcessAnswer_accepted (hgo : ∀ c s, (go c s).1.accepted = s.accepted) (fd : Nat) (r : Reply) (s : St) :
     (bodyProcessAnswer go fd r s).1.accepted =
       s.accepted ++ ((acceptKey s fd r).map fun k => (fd, k, r)).toList := by
-  unfold bodyProcessAnswer acceptKey
-  cases hc : s.conn? fd with
-  | none => simp [St.mfault_accepted]
-  | some c =>
-    simp only
-    by_cases hempty : r.empty = true
-    · simp [hempty]
-    · simp only [hempty, Bool.false_eq_true, ↓reduceIte]
-      by_cases hgarb : r.garbage = true
-      · simp [hgarb]
-      · simp only [hgarb, Bool.false_eq_true, ↓reduceIte]
-        cases hfind : s.byQid.find? (·.1 == r.id) with
-        | none => simp
-        | some p =>
-          obtain ⟨id, key⟩ := p
-          simp only
-          cases hq : s.query? key with
-          | none => simp [St.mfault_accepted]
-          | some q =>
-            simp only
-            have hsame : (q.qtype == r.qtype && q.qclass == r.qclass &&
-                if (s.cfg.dns0x20 && !q.usingTcp) = true then q.name == r.name
-                else hexLower q.name == hexLower r.name) = sameQuestion s.cfg q r := rfl
-            rw [hsame]
-            by_cases hs : sameQuestion s.cfg q r = true
-            · simp only [hs, Bool.not_true, Bool.false_eq_true, ↓reduceIte]
-              have hv : Cookie.validate ((s.server? c.srv).getD default).cookie
-                  { cookieTry := q.cookieTry, usingTcp := q.usingTcp } (if q.edns = true then q.reqCookie else none)
-                  (if r.hasOpt = true then Option.map hexToBytes r.cookie else none) r.rcode s.tv =
-                  cookieCheck s c q r := rfl
-              rw [hv]
-              by_cases hd : ((cookieCheck s c q r).verdict == Cookie.Verdict.drop) = true
-              · simp only [hd, ↓reduceIte, Option.map_none, Option.toList_none, List.append_nil]
-                acc_simp hgo
-              · simp only [hd, Bool.false_eq_true, ↓reduceIte, Option.map_some, Option.toList_some]
-                acc_simp hgo
-            · simp [hs]
+  cases hk : acceptKey s fd r with
+  | some key =>
+    obtain ⟨c, q, _, _, _, heq⟩ := bodyProcessAnswer_accept go hk
+    rw [heq, paTail_accepted go hgo, paPre_accepted]; rfl
+  | none =>
+    simp only [Option.map_none, Option.toList_none, List.append_nil]
+    rcases bodyProcessAnswer_reject go hk with h | ⟨e, h⟩ | ⟨c, key, q, _, _, _, h⟩
+    · rw [h]
+    · rw [h]; rfl
+    · rw [h]; split
+      · rw [hgo, paPre_accepted]
+      · rw [paPre_accepted]
 
 end
 /-! ## the `accepted` log over whole runs -/
@@ -228,58 +350,27 @@ variable (cfg0 : Cfg) (base : List (Nat × Nat × Reply)) (go : Call → St → 
   (hgo : ∀ c s, AccOK cfg0 base s → AccOK cfg0 base (go c s).1)
 include hgo
 
+theorem paTail_AccOK (fd : Nat) (r : Reply) (c : Conn) (key : Nat) (q : Query) (s : St)
+    (h : AccOKF cfg0 base s.cfg (s.accepted ++ [(fd, key, r)])) : AccOK cfg0 base (paTail go fd r c key q s).1 := by
+  unfold paTail
+  chan_peel hgo [AccOK]
+
 theorem bodyProcessAnswer_AccOK (fd : Nat) (r : Reply) (s : St) (h : AccOK cfg0 base s) :
     AccOK cfg0 base (bodyProcessAnswer go fd r s).1 := by
-  have hkey : ∀ key, acceptKey s fd r = some key → AccOKF cfg0 base s.cfg (s.accepted ++ [(fd, key, r)]) :=
-    fun key hk => AccOKF_append h (fd, key, r) s h.1 (acceptKey_authentic hk)
-  unfold acceptKey at hkey
-  unfold bodyProcessAnswer
-  cases hc : s.conn? fd with
-  | none => simpa [AccOK, St.mfault_accepted, St.mfault_cfg] using h
-  | some c =>
-    simp only [hc] at hkey ⊢
-    by_cases hempty : r.empty = true
-    · simpa [hempty] using h
-    · simp only [hempty, Bool.false_eq_true, ↓reduceIte] at hkey ⊢
-      by_cases hgarb : r.garbage = true
-      · simpa [hgarb] using h
-      · simp only [hgarb, Bool.false_eq_true, ↓reduceIte] at hkey ⊢
-        cases hfind : s.byQid.find? (·.1 == r.id) with
-        | none => simpa using h
-        | some p =>
-          obtain ⟨id, key⟩ := p
-          simp only [hfind] at hkey ⊢
-          cases hq : s.query? key with
-          | none => simpa [AccOK, St.mfault_accepted, St.mfault_cfg] using h
-          | some q =>
-            simp only [hq] at hkey ⊢
-            have hsame : (q.qtype == r.qtype && q.qclass == r.qclass &&
-                if (s.cfg.dns0x20 && !q.usingTcp) = true then q.name == r.name
-                else hexLower q.name == hexLower r.name) = sameQuestion s.cfg q r := rfl
-            rw [hsame]
-            by_cases hs : sameQuestion s.cfg q r = true
-            · simp only [hs, Bool.not_true, Bool.false_eq_true, ↓reduceIte] at hkey ⊢
-              have hv : Cookie.validate ((s.server? c.srv).getD default).cookie
-                  { cookieTry := q.cookieTry, usingTcp := q.usingTcp } (if q.edns = true then q.reqCookie else none)
-                  (if r.hasOpt = true then Option.map hexToBytes r.cookie else none) r.rcode s.tv =
-                  cookieCheck s c q r := rfl
-              rw [hv]
-              by_cases hd : ((cookieCheck s c q r).verdict == Cookie.Verdict.drop) = true
-              · simp only [hd, ↓reduceIte]
-                chan_peel hgo [AccOK]
-              · simp only [hd, Bool.false_eq_true, ↓reduceIte] at hkey ⊢
-                have hk := hkey key rfl
-                -- the entry is appended in a state whose `cfg` is still `s.cfg` and whose `accepted` is what the
-                -- (possible) requeue call left; on this path no requeue call is made before the append when the
-                -- verdict is `accept`, but the model text allows one, so we go through `hgo`
-                by_cases hrq : (cookieCheck s c q r).requeue = true
-                · -- `validate` never asks for a requeue together with `accept`
-                  exfalso
-                  have := cookieCheck_requeue_drop s c q r hrq
-                  rw [this] at hd; simp at hd
-                · simp only [hrq, Bool.false_eq_true, ↓reduceIte]
-                  chan_peel hgo [AccOK]
-            · simpa [hs] using h
+  cases hk : acceptKey s fd r with
+  | some key =>
+    obtain ⟨c, q, _, _, _, heq⟩ := bodyProcessAnswer_accept go hk
+    rw [heq]
+    apply paTail_AccOK cfg0 base go hgo
+    rw [paPre_accepted, paPre_cfg]
+    exact AccOKF_append h (fd, key, r) s h.1 (acceptKey_authentic hk)
+  | none =>
+    rcases bodyProcessAnswer_reject go hk with h' | ⟨e, h'⟩ | ⟨c, key, q, _, _, _, h'⟩
+    · rw [h']; exact h
+    · rw [h']; exact h
+    · rw [h']; split
+      · exact hgo _ _ h
+      · exact h
 
 end
 
@@ -366,25 +457,30 @@ theorem bodyProcessAnswer_garbage (go : Call → St → St × Ret) (fd : Nat) (r
     bodyProcessAnswer go fd r s = (s, .badresp) := by
   unfold bodyProcessAnswer; simp only [hc, he, hg, Bool.false_eq_true, ↓reduceIte]
 
-/-- a response that is not accepted changes nothing except what `ares_cookie_validate` itself does (cookie state of
-    the server, BADCOOKIE re-send): in particular when no query has its id, or the question differs, the state is
-    untouched -/
+/-- a response whose id belongs to no query changes nothing -/
 theorem bodyProcessAnswer_unknown_id (go : Call → St → St × Ret) (fd : Nat) (r : Reply) (s : St) (c : Conn)
     (hc : s.conn? fd = some c) (hid : s.byQid.find? (·.1 == r.id) = none) :
     (bodyProcessAnswer go fd r s).1 = s := by
-  unfold bodyProcessAnswer; simp only [hc, hid]
+  rw [bodyProcessAnswer_eq]; simp only [hc, hid]
   repeat (first | rfl | split)
 
+/-- a response arriving on a connection other than the one its query is assigned to changes nothing
+    (the check added by the repair of F9) -/
+theorem bodyProcessAnswer_other_conn (go : Call → St → St × Ret) (fd : Nat) (r : Reply) (s : St) (c : Conn)
+    (id key : Nat) (q : Query) (hc : s.conn? fd = some c) (hid : s.byQid.find? (·.1 == r.id) = some (id, key))
+    (hq : s.query? key = some q) (hconn : q.conn ≠ some fd) :
+    (bodyProcessAnswer go fd r s).1 = s := by
+  rw [bodyProcessAnswer_eq]; simp only [hc, hid, hq]
+  have : (q.conn != some fd) = true := by simpa using hconn
+  simp only [this, ↓reduceIte]
+  repeat (first | rfl | split)
+
+/-- a response with a different question (type, class, name under the case rule) changes nothing -/
 theorem bodyProcessAnswer_wrong_question (go : Call → St → St × Ret) (fd : Nat) (r : Reply) (s : St) (c : Conn)
     (id key : Nat) (q : Query) (hc : s.conn? fd = some c) (hid : s.byQid.find? (·.1 == r.id) = some (id, key))
     (hq : s.query? key = some q) (hs : sameQuestion s.cfg q r = false) :
     (bodyProcessAnswer go fd r s).1 = s := by
-  unfold bodyProcessAnswer; simp only [hc, hid, hq]
-  have hsame : (q.qtype == r.qtype && q.qclass == r.qclass &&
-      if (s.cfg.dns0x20 && !q.usingTcp) = true then q.name == r.name
-      else hexLower q.name == hexLower r.name) = sameQuestion s.cfg q r := rfl
-  rw [hsame, hs]
-  simp only [Bool.not_false, ↓reduceIte]
+  rw [bodyProcessAnswer_eq]; simp only [hc, hid, hq, hs, Bool.not_false, ↓reduceIte]
   repeat (first | rfl | split)
 
 theorem find?_map_key (k : Nat) (f : Query → Query) (hf : ∀ q, (f q).key = q.key) : ∀ (l : List Query),
@@ -421,99 +517,38 @@ theorem bodyProcessAnswer_tc (go : Call → St → St × Ret) (fd : Nat) (r : Re
       s'.accepted = s.accepted ++ [(fd, key, r)] ∧
       (∀ q' ∈ s'.qs, q'.key = key → q'.usingTcp = true) ∧
       s'.doneToks = s.doneToks ∧ s'.cache = s.cache := by
-  have hauth := acceptKey_authentic hk
-  unfold acceptKey at hk
-  unfold bodyProcessAnswer
-  simp only [hc, hauth.notEmpty, hauth.notGarbage, Bool.false_eq_true, ↓reduceIte] at hk ⊢
-  cases hfind : s.byQid.find? (·.1 == r.id) with
-  | none => simp [hfind] at hk
-  | some p =>
-    obtain ⟨id, key'⟩ := p
-    simp only [hfind] at hk ⊢
-    cases hq : s.query? key' with
-    | none => simp [hq] at hk
-    | some q =>
-      simp only [hq] at hk ⊢
-      have hsame : (q.qtype == r.qtype && q.qclass == r.qclass &&
-          if (s.cfg.dns0x20 && !q.usingTcp) = true then q.name == r.name
-          else hexLower q.name == hexLower r.name) = sameQuestion s.cfg q r := rfl
-      rw [hsame]
-      have hv : Cookie.validate ((s.server? c.srv).getD default).cookie
-          { cookieTry := q.cookieTry, usingTcp := q.usingTcp } (if q.edns = true then q.reqCookie else none)
-          (if r.hasOpt = true then Option.map hexToBytes r.cookie else none) r.rcode s.tv =
-          cookieCheck s c q r := rfl
-      rw [hv]
-      by_cases hs : sameQuestion s.cfg q r = true
-      · simp only [hs, Bool.not_true, Bool.false_eq_true, ↓reduceIte] at hk ⊢
-        by_cases hd : ((cookieCheck s c q r).verdict == Cookie.Verdict.drop) = true
-        · simp [hd] at hk
-        · simp only [hd, Bool.false_eq_true, ↓reduceIte, Option.some.injEq] at hk ⊢
-          subst hk
-          have hrq : (cookieCheck s c q r).requeue = false := by
-            cases h : (cookieCheck s c q r).requeue with
-            | false => rfl
-            | true => rw [cookieCheck_requeue_drop s c q r h] at hd; simp at hd
-          have hrc' : (r.rcode == 1) = false := by simpa using hrc
-          simp only [hrq, Bool.false_eq_true, ↓reduceIte, hrc', Bool.false_and, htc, hudp, hign, Bool.not_false,
-            Bool.and_self, chan_frame]
-          refine ⟨_, q, rfl, hq, ?_, by simp only [chan_frame], ?_, by simp only [chan_frame],
-            by simp only [chan_frame]⟩
-          · simp only [chan_frame]
-            have : ((s.modServer c.srv fun v => { v with cookie := (cookieCheck s c q r).ck }).modQuery key' fun q_1 =>
-                { q_1 with cookieTry := (cookieCheck s c q r).q.cookieTry,
-                           usingTcp := (cookieCheck s c q r).q.usingTcp }).query? key' =
-                (s.query? key').map _ := query?_modQuery_self _ _ _ (fun _ => rfl)
-            rw [this, hq]
-            rfl
-          · intro q' hq' hkey
-            obtain ⟨x, _, rfl⟩ := mem_qs_modQuery hq'
-            by_cases hx : (x.key == key') = true
-            · simp only [hx, ↓reduceIte]
-            · simp only [hx, Bool.false_eq_true, ↓reduceIte] at hkey
-              simp only [hkey, beq_self_eq_true, not_true_eq_false] at hx
-      · simp [hs] at hk
+  obtain ⟨c', q, hc', hq, _, heq⟩ := bodyProcessAnswer_accept go hk
+  rw [hc] at hc'; cases hc'
+  have hrc' : (r.rcode == 1) = false := by simpa using hrc
+  rw [heq]
+  unfold paTail
+  simp only [hrc', Bool.false_and, Bool.false_eq_true, ↓reduceIte, htc, hudp, chan_frame, paPre_cfg, hign,
+    Bool.not_false, Bool.and_self]
+  refine ⟨_, q, rfl, hq, ?_, by simp only [chan_frame, paPre_accepted], ?_, by simp only [chan_frame]; rfl,
+    by simp only [chan_frame, paPre_cache]⟩
+  · simp only [chan_frame]
+    have : (paPre s c key q r).query? key = (s.query? key).map _ := query?_modQuery_self _ _ _ (fun _ => rfl)
+    rw [this, hq]
+    rfl
+  · intro q' hq' hkey
+    obtain ⟨x, _, rfl⟩ := mem_qs_modQuery hq'
+    by_cases hx : (x.key == key) = true
+    · simp only [hx, ↓reduceIte]
+    · simp only [hx, Bool.false_eq_true, ↓reduceIte] at hkey
+      simp only [hkey, beq_self_eq_true, not_true_eq_false] at hx
 
 /-- … and with `ARES_FLAG_IGNTC` the truncated answer is used as it is: a NOERROR response goes to `end_query` -/
 theorem bodyProcessAnswer_igntc (go : Call → St → St × Ret) (fd : Nat) (r : Reply) (s : St) (c : Conn) (key : Nat)
     (hc : s.conn? fd = some c) (hk : acceptKey s fd r = some key) (hign : s.cfg.igntc = true) (hrc : r.rcode = 0) :
     ∃ s', bodyProcessAnswer go fd r s = ((go (.endQuery (some c.srv) key .ok (some r)) s').1, .ok) ∧
       s'.accepted = s.accepted ++ [(fd, key, r)] := by
-  have hauth := acceptKey_authentic hk
-  unfold acceptKey at hk
-  unfold bodyProcessAnswer
-  simp only [hc, hauth.notEmpty, hauth.notGarbage, Bool.false_eq_true, ↓reduceIte] at hk ⊢
-  cases hfind : s.byQid.find? (·.1 == r.id) with
-  | none => simp [hfind] at hk
-  | some p =>
-    obtain ⟨id, key'⟩ := p
-    simp only [hfind] at hk ⊢
-    cases hq : s.query? key' with
-    | none => simp [hq] at hk
-    | some q =>
-      simp only [hq] at hk ⊢
-      have hsame : (q.qtype == r.qtype && q.qclass == r.qclass &&
-          if (s.cfg.dns0x20 && !q.usingTcp) = true then q.name == r.name
-          else hexLower q.name == hexLower r.name) = sameQuestion s.cfg q r := rfl
-      rw [hsame]
-      have hv : Cookie.validate ((s.server? c.srv).getD default).cookie
-          { cookieTry := q.cookieTry, usingTcp := q.usingTcp } (if q.edns = true then q.reqCookie else none)
-          (if r.hasOpt = true then Option.map hexToBytes r.cookie else none) r.rcode s.tv =
-          cookieCheck s c q r := rfl
-      rw [hv]
-      by_cases hs : sameQuestion s.cfg q r = true
-      · simp only [hs, Bool.not_true, Bool.false_eq_true, ↓reduceIte] at hk ⊢
-        by_cases hd : ((cookieCheck s c q r).verdict == Cookie.Verdict.drop) = true
-        · simp [hd] at hk
-        · simp only [hd, Bool.false_eq_true, ↓reduceIte, Option.some.injEq] at hk ⊢
-          subst hk
-          have hrq : (cookieCheck s c q r).requeue = false := by
-            cases h : (cookieCheck s c q r).requeue with
-            | false => rfl
-            | true => rw [cookieCheck_requeue_drop s c q r h] at hd; simp at hd
-          simp only [hrq, Bool.false_eq_true, ↓reduceIte, hrc, hign, Bool.not_true, Bool.and_false,
-            Bool.false_and, chan_frame, Nat.reduceBEq, Bool.or_self, Bool.and_false]
-          exact ⟨_, rfl, by simp only [chan_frame]⟩
-      · simp [hs] at hk
+  obtain ⟨c', q, hc', hq, _, heq⟩ := bodyProcessAnswer_accept go hk
+  rw [hc] at hc'; cases hc'
+  rw [heq]
+  unfold paTail
+  simp only [hrc, hign, Bool.not_true, Bool.and_false, Bool.false_and, chan_frame, paPre_cfg, Nat.reduceBEq,
+    Bool.or_self, Bool.false_eq_true, ↓reduceIte]
+  exact ⟨_, rfl, by simp only [chan_frame, paPre_accepted]⟩
 
 /-- **A datagram from the wrong source address never reaches `process_answer`**: `read_conn_packets` takes it off
     the socket and goes on to `read_answers` with the connection's in_buf — and everything else — as it was. -/
